@@ -28,7 +28,7 @@ func init() {
 				"R5: the conversions that feed the servers, the cache and the connection limiter copy each validated setting into the constructor field of the same meaning (a wrong-field copy would put an unvalidated value where a validated one is assumed).",
 			NotCovered: "hazards other than the recognised ones (non-positive quantities, family bounds, division by zero); validation " +
 				"of lists, URLs and cross-references between sections; the environment variables.",
-			Rules: map[string]string{"C20-R11": "newServerDNS accepts exactly the documented idle-timeout interval [0, MaxTCPIdleTimeout] (interval derived from the edges into the panic)", "C20-R1": "zero / negative rejection of every numeric setting", "C20-R2": "subnet key length family bounds",
+			Rules: map[string]string{"C20-R12": "cacheConfig.toInternal: cache type none exactly when size is 0; dnssvc.newListenConfig wraps a listen configuration with the connection limiter only when there is one", "C20-R11": "newServerDNS accepts exactly the documented idle-timeout interval [0, MaxTCPIdleTimeout] (interval derived from the edges into the panic)", "C20-R1": "zero / negative rejection of every numeric setting", "C20-R2": "subnet key length family bounds",
 				"C20-R3": "section table completeness", "C20-R4": "divisor provenance", "C20-R5": "validated settings are copied into the constructor fields of the same meaning",
 				"C20-R8": "builder flags computed over all server groups accumulate (a later group cannot switch off what an earlier group needs, e.g. the profile database)",
 				"C20-R6": "DDR record validation: DoH port needs a path, hints must be of their address family"},
@@ -179,6 +179,65 @@ var c20Skip = map[string]string{
 
 func runC20(c *an.Ctx) {
 	cmdConversions(c, "C20-R5", nil, 30)
+	// ---- R12: what an accepted cache / connection-limit configuration turns into: no cache exactly when size is 0
+	// (a zero-sized cache object panics at start-up), and a disabled (nil) limiter is never wrapped around a listener
+	c.Floor("C20-R12", 2)
+	ctNone, _ := c.ConstInt("dnssvc", "CacheTypeNone")
+	ctSimple, _ := c.ConstInt("dnssvc", "CacheTypeSimple")
+	ctECS, _ := c.ConstInt("dnssvc", "CacheTypeECS")
+	decide(c, "C20-R12", "cmd.(*cacheConfig).toInternal", an.DecideCfg{
+		Dom: an.Domain{"(p0.Size == 0)": an.Bools, `(p0.Type == "simple")`: an.Bools},
+		Expect: func(f an.Features, o an.AOutcome) string {
+			want := ctECS
+			switch {
+			case f.B("(p0.Size == 0)"):
+				want = ctNone
+			case f.B(`(p0.Type == "simple")`):
+				want = ctSimple
+			}
+			if len(o.Ret) != 1 {
+				return "a configuration"
+			}
+			k := strings.TrimPrefix(o.Ret[0].String(), "&")
+			if got := o.Mem[k+".Type"].String(); got != fmt.Sprint(want) {
+				return fmt.Sprintf("cache type %d (none exactly when size is 0, whatever the other sizes are); got %s", want, got)
+			}
+			return ""
+		},
+	})
+	protoDNS, _ := c.ConstInt("agd", "ProtoDNS")
+	isDNS := fmt.Sprintf("(p3 == %d)", protoDNS)
+	decide(c, "C20-R12", "dnssvc.newListenConfig", an.DecideCfg{
+		Dom: an.Domain{"p0": an.NilOrNot, "p2": an.NilOrNot, isDNS: an.Bools},
+		OnCall: func(it *an.Interp, name string, args []an.AV) (an.AV, bool) {
+			switch {
+			case strings.HasSuffix(name, "connlimiter.NewListenConfig"):
+				return an.NonNil("limited(" + args[0].String() + "," + args[1].String() + ")"), true
+			case strings.HasSuffix(name, "netext.DefaultListenConfigWithOOB"):
+				return an.NonNil("oob"), true
+			case strings.HasSuffix(name, "netext.DefaultListenConfig"):
+				return an.NonNil("plain"), true
+			}
+			return an.AV{}, false
+		},
+		Expect: func(f an.Features, o an.AOutcome) string {
+			base := "nonnil:plain"
+			if f.B(isDNS) {
+				base = "nonnil:oob"
+			}
+			if !f.IsNil("p0") {
+				base = "nonnil:p0"
+			}
+			want := base
+			if !f.IsNil("p2") {
+				want = "nonnil:limited(" + base + ",nonnil:p2)"
+			}
+			if got := o.RetString(); got != want {
+				return want + " (a nil limiter is never wrapped around the listen configuration); got " + got
+			}
+			return ""
+		},
+	})
 	// ---- R11: the stream servers accept exactly the documented idle-timeout range [0, MaxTCPIdleTimeout]
 	c.Floor("C20-R11", 1)
 	if maxIdle, ok := c.ConstInt("dnsserver", "MaxTCPIdleTimeout"); ok {
